@@ -13,6 +13,7 @@ T15 number / range patterns are compared with min() / max() of the matched numbe
 T16 type definitions: duplicated struct fields are rejected; self-containing struct / enum definitions are rejected before any function body is checked
 T17 const definitions: the declared type is resolved before it is registered; a value provided by a party is registered with one type
 T18 cross-reference: a number pattern covers only its own singleton constructor range (C08-M6), else `let -128i8 = x;` is accepted
+T19 the parser reports a second top-level definition of the same name (const / struct / enum / fn) instead of replacing the first
 T12 a block takes the type of its last statement only (assigned on the `index == len - 1` edge, or afresh for every statement)
 T11 max / min / + / - const expressions are only accepted for consts whose declared type is examined (numeric)
 T9  const expressions are checked against the consts defined before them (a local map filled in source order), never against the
@@ -1089,6 +1090,23 @@ def rule_t15(ctx):
         exits = [b for b in ok_exits(body) if b in region]
         if len(region) == len(body.reachable([0])) or not exits:
             raise AnchorMissing("T15: cannot isolate the %s arm of the pattern checker" % variant)
+        # the written type suffix of the pattern is compared with the matched type
+        sfx = str(len(fields))
+        cmp_fns = {g["id"] for g in ctx.fns.values() if g.get("mir") and g["sp"][0] == "src/check.rs" and
+                   any(tt["func"].get("declared") in ("std::cmp::PartialEq::eq", "std::cmp::PartialEq::ne") and "ast::Type" in "".join(tt["func"].get("substs") or [])
+                       for _, tt in ctx.body(g["id"]).calls())}
+        sblocks = set()
+        for b in region:
+            t = body.term(b)
+            if t and t["k"] == "call" and (mir.callee(t) or "") in cmp_fns and (mir.callee(t) or "") != f["id"]:
+                if any(a["k"] in ("copy", "move") and any(r == SELF1 and tuple(p[-2:]) == ("as " + variant, sfx) for (r, p) in body.deep_sources(a, depth=3)) for a in t["args"]):
+                    sblocks.add(b)
+        wit = body.must_pass(sblocks, exits=exits, succ=succ) if sblocks else [0]
+        if wit:
+            res.bad(Finding("T15", f["id"], "%s pattern: the type suffix is not compared with the matched type" % variant,
+                            "the suffix written in the pattern is stored but never compared: `match a_u8 { 1u16 => .. }` and `match a_i64 { -5i8 => .. }` are accepted", f["sp"]))
+        else:
+            res.ok({"pattern": variant, "clause": "suffix", "verdict": "compared with the matched type on every accepting path"})
         for fld in fields:
             blocks = set()
             for b in region:
@@ -1143,6 +1161,12 @@ def rule_t16(ctx):
             res.bad(Finding("T16", f["id"], "struct definition: duplicate test outside the loop over the fields", "the duplicate error is not raised per field", f["sp"]))
         else:
             res.ok({"clause": "duplicated struct fields", "verdict": "DuplicateStructField raised inside the loop over the definition's fields"})
+    dupv = builds("DuplicateEnumVariant")
+    if dupv and [l for l in body.loops() if l["body"] & dupv]:
+        res.ok({"clause": "duplicated enum variants", "verdict": "DuplicateEnumVariant raised inside the loop over the definition's variants"})
+    else:
+        res.bad(Finding("T16", f["id"], "enum definition: a variant declared twice is not rejected",
+                        "`enum E { A, A(u8), B }` is accepted; the checker keeps the last variant of that name, the compiler picks the first (panic or lost payload)", f["sp"]))
     # (b) self-containing types: error built, and the function checker is only reached when none was found
     rec = builds("RecursiveTypeDef")
     if not rec:
@@ -1261,5 +1285,44 @@ def rule_t18(ctx):
     return res
 
 
+def rule_t19(ctx):
+    """Top-level definitions are kept in maps by name.  A second definition with the same name must be an error: if it silently
+    replaces the first one, the first one (with whatever rule violations it contains) is never checked at all."""
+    res = RuleResult("T19", "the parser reports a second top-level definition with the same name instead of replacing the first")
+    f = ctx.find_fn("parse", "parse::Parser", "parse.rs")
+    body = ctx.body(f["id"])
+    inserts = [(b, t) for b, t in body.calls() if mir.last_seg(mir.callee(t) or "") == "insert" and "HashMap" in (mir.callee(t) or "") and not body.blocks[b]["cleanup"]]
+    if len(inserts) < 4:
+        raise AnchorMissing("T19: expected the four definition maps of Parser::parse, found %d inserts" % len(inserts))
+    reports = {b for b, t in body.calls() if mir.last_seg(mir.callee(t) or "") in ("push_error", "push_error_for_next")}
+    for b, t in inserts:
+        what = (t["args"][2]["place"]["ty"] if t["args"][2]["k"] in ("copy", "move") else "?").split("::")[-1]
+        # the returned Option must be examined, and on the `Some` (replaced) edge an error is recorded before the next definition
+        examined = []
+        for sb in range(body.n):
+            st = body.term(sb)
+            if not st or st["k"] != "switch" or st["discr"]["k"] not in ("copy", "move"):
+                continue
+            roots = body.trace(st["discr"]["place"], through={"std::option::Option::<T>::is_some": 0, "std::option::Option::<T>::is_none": 0})
+            if any(r[:2] == ("call", b) for (r, p) in roots):
+                examined.append(sb)
+            info = body.switch_info(sb)
+            if info and info[0] and info[0][0][:2] == ("call", b):
+                examined.append(sb)
+        ok = False
+        for sb in examined:
+            for x in body.succs(sb):
+                lp = [l for l in body.loops() if sb in l["body"]]
+                hdr = max(lp, key=lambda l: len(l["body"]))["header"] if lp else None
+                if hdr is not None and not body.path(x, [hdr], blocked=reports) and body.path(x, [hdr]):
+                    ok = True
+        if ok:
+            res.ok({"map": what, "line": t["sp"][1], "verdict": "a replaced definition is reported"})
+        else:
+            res.bad(Finding("T19", f["id"], "duplicate %s definition replaces the first one silently" % what,
+                            "the result of the map insert is dropped: `fn f(x: u8) -> u8 { f(y) + true }  fn f(x: u8) -> u8 { x }` is accepted, the first f is never checked", t["sp"]))
+    return res
+
+
 def run(ctx):
-    return ctx.run_rules([rule_t1, rule_t2, rule_t3, rule_t4, rule_t5, rule_t6, rule_t7, rule_t8, rule_t9, rule_t10, rule_t11, rule_t12, rule_t13, rule_t14, rule_t15, rule_t16, rule_t17, rule_t18])
+    return ctx.run_rules([rule_t1, rule_t2, rule_t3, rule_t4, rule_t5, rule_t6, rule_t7, rule_t8, rule_t9, rule_t10, rule_t11, rule_t12, rule_t13, rule_t14, rule_t15, rule_t16, rule_t17, rule_t18, rule_t19])
